@@ -149,7 +149,7 @@ func matchFault(kind, path string, c *Ctx) *scen.Fault {
 		if f.CallID >= 0 && f.CallID != c.Call {
 			continue
 		}
-		if f.PathSuffix != "" && !hasSuffix(path, f.PathSuffix) {
+		if f.PathSuffix != "" && !contains(path, f.PathSuffix) {
 			continue
 		}
 		key := fmt.Sprintf("%d|%s|%s|%d", i, kind, path, c.Call)
@@ -164,7 +164,14 @@ func matchFault(kind, path string, c *Ctx) *scen.Fault {
 	return nil
 }
 
-func hasSuffix(s, suf string) bool { return len(s) >= len(suf) && s[len(s)-len(suf):] == suf }
+func contains(s, sub string) bool {
+	for i := 0; i+len(sub) <= len(s); i++ {
+		if s[i:i+len(sub)] == sub {
+			return true
+		}
+	}
+	return false
+}
 
 // SetMut lets the shim decide after the fact whether the op mutated the disk.
 func (r *OpRec) SetMut(m bool) { r.op.Mut = m }
